@@ -133,6 +133,21 @@ impl<'a> Gen<'a> {
                 let (a, b, c) = (self.name(), self.name(), self.name());
                 format!("[{} {{ | ={} => A[{}] | B[] }}, {}] {{ | =[A[{}], {}] => {} | =[A[{}], {}] => {} | {} }}", pick, pick.min(1), k1, k2, a, a, x, b, c, y, z)
             }
+            _ if roll >= 59 && roll < 62 => {
+                // a block whose only branch has a pattern that the field-less variants of its scrutinee cannot match (a star or a
+                // partial on integer-or-tuple): it yields nil for those, and the block after it tells nil from the rest
+                self.feat("field_pattern_only_branch_on_a_union_with_a_field_less_variant");
+                let inner = cx.with_flow(None);
+                let pick = self.rng.below(2);
+                let less = if self.rng.chance(1, 2) { self.lit(&Ty::Int) } else { self.lit(&Ty::Bin) };
+                let tag = if self.rng.chance(1, 2) { self.rng.pick(TAGS).to_string() } else { String::new() };
+                let (a, b) = (self.lit(&Ty::Int), self.lit(&Ty::Bin));
+                let tup = match self.rng.below(3) { 0 => format!("{}[x: {}, y: {}]", tag, a, b), 1 => format!("{}[y: {}]", tag, b), _ => format!("{}[{}, k: {}]", tag, b, a) };
+                let pat = match self.rng.below(4) { 0 | 1 => "*".to_string(), 2 => format!("{}*", tag), _ => if tup.contains("y:") { "(y: _)".to_string() } else { "(k: _)".to_string() } };
+                let junk = self.lit(&Ty::Int);
+                let x = self.of(t, &inner, d - 1); let y = self.of(t, &inner, d - 1);
+                format!("{} {{ | =1 => {} | {} }} {{ | ={} => {} }} {{ | =[] => {} | {} }}", pick, less, tup, pat, junk, x, y)
+            }
             _ if roll < 62 => self.total_block(t, cx, d),
             _ if roll < 72 => {
                 // { bindings, result }
@@ -231,8 +246,21 @@ impl<'a> Gen<'a> {
             if !pinnable.is_empty() && self.rng.chance(1, 10) {
                 self.feat("pin_in_a_binding_step_pattern");
                 let u = pinnable[self.rng.below(pinnable.len())].clone(); let a = self.name();
-                steps.push(if self.rng.chance(1, 2) { format!("[{}, &{}] = [{}, {}]", a, u, e, u) } else { format!("A[&{}, {}] = A[{}, {}]", u, a, u, e) });
-                cx.bind(&a, et); cx.flow = Some(Ty::ok());
+                let first = self.rng.chance(1, 2);
+                let wild = self.rng.chance(1, 4);
+                let pin = if wild { "_".to_string() } else { format!("&{}", u) };
+                steps.push(if first { format!("[{}, {}] = [{}, {}]", a, pin, e, u) } else { format!("A[{}, {}] = A[{}, {}]", pin, a, u, e) });
+                cx.bind(&a, et.clone()); cx.flow = Some(Ty::ok());
+                // the pattern has one binder, at a path: a test on a field of what it bound says nothing about the variable that sits
+                // next to it in the matched tuple — which is read again straight afterwards
+                if let Ty::Tup(_, fs) = &et { if !fs.is_empty() && !fs[0].1.has_fn() && !fs[0].1.may_be_nil() && self.rng.chance(2, 3) {
+                    self.feat("field_test_on_the_only_binder_of_a_destructuring");
+                    let (f, g) = (self.name(), self.name());
+                    let acc = match &fs[0].0 { Some(l) if self.rng.chance(1, 2) => l.clone(), _ => "0".to_string() };
+                    steps.push(format!("{}.{} ={}", a, acc, f)); cx.bind(&f, fs[0].1.clone());
+                    let ut = cx.vars.iter().find(|(n, _)| *n == u).map(|(_, t)| t.clone()).unwrap();
+                    if !ut.may_be_nil() || self.allow_nil_binds { steps.push(format!("{} = {}", g, u)); cx.bind(&g, ut); }
+                } }
                 continue;
             }
             match self.rng.below(4) {
